@@ -10,6 +10,7 @@ let () = Drv_dot.(ignore linked)
 let () = Drv_bashsem.(ignore linked)
 let () = Drv_amb.(ignore linked)
 let () = Drv_driver.(ignore linked)
+let () = Drv_compiler.(ignore compiler_linked)
 let () = Drv_minimize.(ignore of_min_outcome)
 let () = Drv_regex.(ignore of_regex)
 let () = Drv_parse.(ignore of_grammar)
